@@ -6,6 +6,7 @@ import (
 	"fmt"
 	"go/token"
 	"go/types"
+	"os"
 	"sort"
 	"strings"
 	"sync"
@@ -34,6 +35,7 @@ type Engine struct {
 	Warnings     []string
 	MaxInline    int
 	MaxPaths     int
+	freshAppend  bool // the older model of append (always a fresh array), QEDVC_FRESH_APPEND=1
 }
 
 type ordKey struct {
@@ -48,7 +50,7 @@ func NewEngine(prog *Program, cs *ContractSet) *Engine {
 		purePkgs: map[string]bool{}, constGlobal: map[*ssa.Global]bool{},
 		cellableC: map[*ssa.Alloc]bool{}, loopC: map[*ssa.Function]*loopInfo{}, ordC: map[*ssa.Function]map[ordKey]string{},
 		selfClosure: map[*ssa.FreeVar]*ssa.Function{},
-		MaxInline:   4, MaxPaths: 6000}
+		MaxInline:   4, MaxPaths: 6000, freshAppend: os.Getenv("QEDVC_FRESH_APPEND") != ""}
 	for _, p := range cs.PurePkgs {
 		e.purePkgs[p] = true
 	}
@@ -455,6 +457,8 @@ func (e *Engine) ordinal(fn *ssa.Function, ins ssa.Instruction, kind string) str
 					add(ins, "conv")
 				case *ssa.Return:
 					add(ins, "return")
+				case *ssa.Send:
+					add(ins, "send")
 				}
 			}
 		}
